@@ -129,13 +129,16 @@ def civil(sec):
 
 
 # ------------------------------------------------------------------ generators
-def gen_calendar():
+def gen_calendar(quick=False):
     cases = []
     lo = JFIRST
     n = 0
     while lo <= JLAST:
         hi = min(lo + 999, JLAST)
-        cases.append(vlib.Case("cal%d" % n, "cal", ["D %d %d" % (lo, hi), "DI %d %d" % (lo, hi)], "calendar-exhaustive"))
+        ops = ["D %d %d" % (lo, hi)]
+        if not quick or n % 6 == 0 or hi == JLAST:
+            ops.append("DI %d %d" % (lo, hi))      # Date::toIsoString: every day in thorough, every 6th block of 1000 days in quick
+        cases.append(vlib.Case("cal%d" % n, "cal", ops, "calendar-exhaustive"))
         lo = hi + 1
         n += 1
     # outside the range too (not part of the property; correspondence of the generated functions only)
@@ -1032,7 +1035,7 @@ def run(chk, replay=None):
                 c.cid = "corpus_" + os.path.basename(f)[:-5] + "_" + c.cid
                 cases.append(c)
         quick = tier == "quick"
-        cases += gen_calendar()
+        cases += gen_calendar(quick)
         cases += gen_utc(rng, 20000 if quick else 400000)
         files = tzif_files()
         tables, unreadable = dump_tables(impl, files)
